@@ -317,6 +317,14 @@ class Ctx:
                 r, m = self.solve(z3.BoolVal(True))      # model consistent with the abstracted products
             else:
                 r, m = self._check([], FORK_TIMEOUT_MS)
+                if r == 'unknown':
+                    r, m = self.solve(z3.BoolVal(True))
+            if r == 'unsat':
+                # exploration over-approximates feasibility (unknown -> explore): this path cannot actually be taken
+                return False
+            if r == 'unknown':
+                self.events.append(dict(kind='inconclusive', what=what + ' [path condition not decided]', key=key or what, info=info or {}))
+                return False
             model = self.model_inputs(m) if m is not None else {}
             self.events.append(dict(kind=kind, what=what, key=key or what, model=model, info=info or {}))
             return True
@@ -489,9 +497,11 @@ def explore(fn, max_paths=20000, roots=None, catch=()):
                 CTX = None
                 raise
             site = f'{where[-1].filename.split("abacusnbody/")[-1]}:{where[-1].name}:{where[-1].lineno}'
+            n_ev = len(c.events)
             c.report('violation', f'the code raised {type(e).__name__}: {e} at {site}', key=f'raises:{type(e).__name__}:{where[-1].name}',
                      info=dict(site=site))
-            c.events[-1]['key'] = c.extra.get('keyprefix', '') + c.events[-1]['key']
+            if len(c.events) > n_ev:
+                c.events[-1]['key'] = c.extra.get('keyprefix', '') + c.events[-1]['key']
             exc = 'raised'
         finally:
             CTX = None
@@ -1017,6 +1027,12 @@ def sym_round(s):
     kr = z3.ToReal(k)
     CTX.add(z3.And(kr - x <= z3.RealVal('1/2'), x - kr <= z3.RealVal('1/2'),
                    z3.Implies(z3.Or(kr - x == z3.RealVal('1/2'), x - kr == z3.RealVal('1/2')), k % 2 == 0)))
+    # redundant lemma instances (z3's mixed integer/real reasoning does not find them on its own): a value strictly
+    # within 1/2 of an integer input rounds to that integer
+    ints = [v for v in CTX.inputs.values() if v.sort() == z3.IntSort()][:6]
+    for m in ints:
+        mr = z3.ToReal(m)
+        CTX.add(z3.Implies(z3.And(x - mr < z3.RealVal('1/2'), mr - x < z3.RealVal('1/2')), k == m))
     return Sym(k)
 
 
